@@ -432,6 +432,7 @@ class Check:
                     "traces_validated_against_impl": 0, "samples": [], "exhaustive": False}
         self.assumptions = []
         self.notes = {}
+        shutil.rmtree(os.path.join(OUT, "replays", prop), ignore_errors=True)   # replays of this run only
 
     def add_tlc(self, res, name=None):
         self.cov["states"] += res.distinct
